@@ -327,6 +327,7 @@ def base_globals(schema) -> Dict[str, Any]:
         return Seq.of(range(a, b))
     G["Range"] = _range
     G["__mkdict"] = AttrDict
+    G["__pick"] = _pick
     G["MetaData"] = lambda seq, md: seq
     G["ResultTTree"] = lambda seq, cols, t, f: seq
     G["isNonnull"] = lambda o: not isinstance(o, NullObj)
@@ -391,7 +392,34 @@ class AttrDict(dict):
             raise AttributeError(n)
 
 
+def _pick(k, *thunks):
+    """`(a, b, ...)[k]` / `{..}[key]` written out literally: func_adl resolves the subscript statically, so the generated
+    job never computes the other elements, while Python builds the whole tuple first.  'skip' mode takes the translator's
+    reading, the other modes Python's (an event on which they disagree is UNSPEC)."""
+    if RT.mode == "skip":
+        return thunks[k]()
+    vals = [t() for t in thunks]
+    return vals[k]
+
+
 class _DictWrap(ast.NodeTransformer):
+    def visit_Subscript(self, node):
+        self.generic_visit(node)
+        v, sl = node.value, node.slice
+        if isinstance(sl, ast.Constant):
+            elts = None
+            if isinstance(v, (ast.Tuple, ast.List)) and isinstance(sl.value, int) and not isinstance(sl.value, bool) and -len(v.elts) <= sl.value < len(v.elts):
+                elts, k = v.elts, sl.value % len(v.elts)
+            elif isinstance(v, ast.Call) and isinstance(v.func, ast.Name) and v.func.id == "__mkdict" and isinstance(v.args[0], ast.Dict):
+                d = v.args[0]
+                keys = [kk.value if isinstance(kk, ast.Constant) else None for kk in d.keys]
+                if sl.value in keys and None not in keys:
+                    elts, k = d.values, keys.index(sl.value)
+            if elts is not None:
+                lam = [ast.Lambda(args=ast.arguments(posonlyargs=[], args=[], kwonlyargs=[], kw_defaults=[], defaults=[]), body=e) for e in elts]
+                return ast.Call(func=ast.Name("__pick", ast.Load()), args=[ast.Constant(k)] + lam, keywords=[])
+        return node
+
     def visit_Dict(self, node):
         self.generic_visit(node)
         return ast.Call(func=ast.Name("__mkdict", ast.Load()), args=[node], keywords=[])
